@@ -717,3 +717,16 @@ def main(ctx):
         "Non-trivial = inputs the reference accepts."
         % ("{00..08,30,ff}" if ctx.quick else "00..ff (all 2^24 strings)"))
     return rep
+
+
+def mixed_cases(ctx):
+    groups = []
+    for names in catalog.same_length_groups():
+        items = []
+        for kind in ("compressed", "uncompressed", "hybrid",
+                     "compressed-other-root", "off-curve", "raw",
+                     "compressed-nonresidue", "hybrid-wrong-parity"):
+            for nm in names:
+                items.append(("real", dict(curve=nm, kind=kind)))
+        groups.append(items)
+    return groups
